@@ -188,8 +188,9 @@ MP_RULE = ("random start/end states (positions within ±1e4 mm, start/end veloci
 
 PROPS["C06"] = dict(
     gen=cases.gen_C06,
-    # the constructor converts f32 seconds to Time through TryFrom<Quantity>: must also work with checking compiled out
-    configs=[(None, "chk"), ("std,devices", "nochk")],
+    # the constructor converts f32 seconds to Time through TryFrom<Quantity>: must also work with checking compiled out; and it takes
+    # `abs` of both limits, which has a separate body in builds without std
+    configs=[(None, "chk"), ("std,devices", "nochk"), ("libm,chk,devices", "chk nostd")],
     oracle=cases.oracle_C06,
     project=cases.project_C06,
     precompare=cases.precompare_C06,
